@@ -83,7 +83,6 @@ pub struct Run {
 }
 
 pub trait Case {
-    fn name(&self) -> &'static str;
     /// One instance whose decisions come from `bytes`, with the decision log captured.
     fn repro(&self, bytes: &[u8], inp: &Inp) -> Run;
     /// All instances of exhaustive mode: (traces, executions reported by the simulator, failure).
@@ -91,7 +90,6 @@ pub trait Case {
 }
 
 pub struct CaseImpl<P> {
-    pub name: &'static str,
     pub compiled: CompiledSim,
     pub ports: P,
 }
@@ -142,10 +140,6 @@ fn triggers(inp: &Inp, t: &Trace) {
 }
 
 impl<P: Body + RefUnwindSafe> Case for CaseImpl<P> {
-    fn name(&self) -> &'static str {
-        self.name
-    }
-
     fn repro(&self, bytes: &[u8], inp: &Inp) -> Run {
         let mut log: Vec<u8> = vec![];
         let mut trace: Option<Trace> = None;
@@ -439,74 +433,73 @@ pub fn build_case(name: &str) -> Box<dyn Case> {
         "batch_ordered" => {
             let (tx, input) = p.sim_input::<i32, TotalOrder, ExactlyOnce>();
             let rx = flows::batch_ordered(input).sim_output();
-            Box::new(CaseImpl { name: "batch_ordered", compiled: flow.sim().compiled(), ports: BatchOrdered { tx, rx } })
+            Box::new(CaseImpl { compiled: flow.sim().compiled(), ports: BatchOrdered { tx, rx } })
         }
         "batch_unordered" => {
             let (tx, input) = p.sim_input::<i32, NoOrder, ExactlyOnce>();
             let rx = flows::batch_unordered(input).sim_output();
-            Box::new(CaseImpl { name: "batch_unordered", compiled: flow.sim().compiled(), ports: BatchUnordered { tx, rx } })
+            Box::new(CaseImpl { compiled: flow.sim().compiled(), ports: BatchUnordered { tx, rx } })
         }
         "batch_keyed_ordered" => {
             let (tx, input) = p.sim_input::<(u32, i32), TotalOrder, ExactlyOnce>();
             let rx = flows::batch_keyed_ordered(input).sim_output();
-            Box::new(CaseImpl { name: "batch_keyed_ordered", compiled: flow.sim().compiled(), ports: KeyedOrdered { tx, rx } })
+            Box::new(CaseImpl { compiled: flow.sim().compiled(), ports: KeyedOrdered { tx, rx } })
         }
         "batch_keyed_unordered" => {
             let (tx, input) = p.sim_input::<(u32, i32), NoOrder, ExactlyOnce>();
             let rx = flows::batch_keyed_unordered(input).sim_output();
-            Box::new(CaseImpl { name: "batch_keyed_unordered", compiled: flow.sim().compiled(), ports: KeyedUnordered { tx, rx } })
+            Box::new(CaseImpl { compiled: flow.sim().compiled(), ports: KeyedUnordered { tx, rx } })
         }
         "snapshot_count" => {
             let (tx, input) = p.sim_input::<i32, TotalOrder, ExactlyOnce>();
             let rx = flows::snapshot_count(input).sim_output();
-            Box::new(CaseImpl { name: "snapshot_count", compiled: flow.sim().compiled(), ports: SnapshotCount { tx, rx } })
+            Box::new(CaseImpl { compiled: flow.sim().compiled(), ports: SnapshotCount { tx, rx } })
         }
         "snapshot_keyed_sum" => {
             let (tx, input) = p.sim_input::<(u32, i32), TotalOrder, ExactlyOnce>();
             let rx = flows::snapshot_keyed_sum(input).sim_output();
-            Box::new(CaseImpl { name: "snapshot_keyed_sum", compiled: flow.sim().compiled(), ports: SnapshotKeyedSum { tx, rx } })
+            Box::new(CaseImpl { compiled: flow.sim().compiled(), ports: SnapshotKeyedSum { tx, rx } })
         }
         "two_ticks" => {
             let (txa, a) = p.sim_input::<i32, TotalOrder, ExactlyOnce>();
             let (txb, b) = p.sim_input::<i32, TotalOrder, ExactlyOnce>();
             let (oa, ob) = flows::two_ticks(a, b);
             let (rxa, rxb) = (oa.sim_output(), ob.sim_output());
-            Box::new(CaseImpl { name: "two_ticks", compiled: flow.sim().compiled(), ports: TwoTicks { txa, txb, rxa, rxb } })
+            Box::new(CaseImpl { compiled: flow.sim().compiled(), ports: TwoTicks { txa, txb, rxa, rxb } })
         }
         "batch_with_snapshot" => {
             let (txa, a) = p.sim_input::<i32, TotalOrder, ExactlyOnce>();
             let (txb, b) = p.sim_input::<i32, TotalOrder, ExactlyOnce>();
             let rx = flows::batch_with_snapshot(a, b).sim_output();
-            Box::new(CaseImpl { name: "batch_with_snapshot", compiled: flow.sim().compiled(), ports: BatchWithSnapshot { txa, txb, rx } })
+            Box::new(CaseImpl { compiled: flow.sim().compiled(), ports: BatchWithSnapshot { txa, txb, rx } })
         }
         "batch_with_fold_snapshot" => {
             let (txa, a) = p.sim_input::<i32, TotalOrder, ExactlyOnce>();
             let (txb, b) = p.sim_input::<i32, NoOrder, ExactlyOnce>();
             let rx = flows::batch_with_fold_snapshot(a, b).sim_output();
-            Box::new(CaseImpl { name: "batch_with_fold_snapshot", compiled: flow.sim().compiled(), ports: BatchWithFoldSnapshot { txa, txb, rx } })
+            Box::new(CaseImpl { compiled: flow.sim().compiled(), ports: BatchWithFoldSnapshot { txa, txb, rx } })
         }
         "fold_unordered" => {
             let (tx, input) = p.sim_input::<i32, NoOrder, ExactlyOnce>();
             let rx = flows::fold_unordered(input).sim_output();
-            Box::new(CaseImpl { name: "fold_unordered", compiled: flow.sim().compiled(), ports: FoldUnordered { tx, rx } })
+            Box::new(CaseImpl { compiled: flow.sim().compiled(), ports: FoldUnordered { tx, rx } })
         }
         "top_order" => {
             let (tx, input) = p.sim_input::<i32, NoOrder, ExactlyOnce>();
             let rx = flows::top_order(input).sim_output();
-            Box::new(CaseImpl { name: "top_order", compiled: flow.sim().compiled(), ports: TopOrder { tx, rx } })
+            Box::new(CaseImpl { compiled: flow.sim().compiled(), ports: TopOrder { tx, rx } })
         }
         "top_merge" => {
             let (txa, a) = p.sim_input::<i32, TotalOrder, ExactlyOnce>();
             let (txb, b) = p.sim_input::<i32, TotalOrder, ExactlyOnce>();
             let rx = flows::top_merge(a, b).sim_output();
-            Box::new(CaseImpl { name: "top_merge", compiled: flow.sim().compiled(), ports: TopMerge { txa, txb, rx } })
+            Box::new(CaseImpl { compiled: flow.sim().compiled(), ports: TopMerge { txa, txb, rx } })
         }
         "net_cluster" => {
             let c = flow.cluster::<()>();
             let (tx, input) = p.sim_input::<i32, TotalOrder, ExactlyOnce>();
             let rx = flows::net_cluster(input, &c).sim_output();
             Box::new(CaseImpl {
-                name: "net_cluster",
                 compiled: flow.sim().with_cluster_size(&c, NET_CLUSTER_SIZE).compiled(),
                 ports: NetCluster { tx, rx },
             })
